@@ -9,6 +9,14 @@ wt = f"/tmp/seed{rnd}_{pid}"
 mech = "; ".join(f"{m['name']} ({m['where']})" for m in p["anchors"].get("mechanism", []))
 count, countset = ("THREE", "{1, 2, 3}") if rnd else ("TWO", "{1, 2}")
 extra = ""
+if rnd == "4":
+    extra = (" In this round stay away from the central numerical routine and from the plain 'loop over variants uses the first variant' slip. Look at: "
+             "(1) the public helpers users call right before or after the entry points named under 'Observed at' (building input data from the object, "
+             "plans, priors, spans, getters that report what was computed) and every documented argument of those helpers; (2) branches that silently fall "
+             "back or silently skip (missing names, empty selections, None defaults resolved late); (3) shape and type edges (a scalar where an array is "
+             "usual, integers where floats are usual, one row or one column, a tuple where a list is usual); (4) whether a returned or stored object is a "
+             "copy or a view of something that is modified later; (5) orderings that are assumed to coincide (declaration order, alphabetical order, order "
+             "of first appearance, dictionary order). Each change must still break the property as stated, not merely an adjacent convenience.")
 if rnd == "3":
     extra = (" In this round look away from the central numerical routine: first list the public entry points named under 'Observed at' with ALL their "
              "keyword options, the helper layers they pass through (argument normalisation, caching, variant iteration, data extraction and write-back, "
